@@ -9,7 +9,7 @@ RULE = ("cases = (number of fields 1..3, common length, selector / concatenation
 ASSUMPTIONS = ["oracle: numpy indexing / concatenation of each field array on its own", "field contents are distinct per field and row so a misaligned entry is visible"]
 REQUIRED_FEATURES = ["three_fields", "two_dim_field", "zero_length", "mask_selector", "list_with_repeats", "mismatch_refused", "varlen_widths_differ",
                      "concat_triple", "single_entry", "astype_reordered_fields", "equality_other_field_shape", "inherited_class",
-                     "two_dim_first_field", "index_array_selector", "simultaneous_iterations"]
+                     "two_dim_first_field", "index_array_selector", "simultaneous_iterations", "mismatch_cancelling"]
 BOUNDS = {"quick": "1-3 fields (1-D int, 2-D int, 1-D float) x length 0..4 x {every int, 27 slices, lists of length<=2 incl. empty, every mask} + iteration, "
                    "concatenate pairs and triples with lengths 0..3, equality, astype to a narrower class, fields one entry longer/shorter; VarLenArray "
                    "concatenation widths 1..3 x lengths 0..2 (pairs) and triples; five field layouts with a 2-D first field; index arrays and numpy scalars; column shapes compared; simultaneous iterations; inherited dataclass",
@@ -134,6 +134,10 @@ def cases(shard, tier):
             if n + d >= 0:
                 for which in range(1, k):
                     yield ["mismatch", k, n, d, which]
+        if k == 3 and n >= 1:
+            # two fields of the wrong length whose deviations cancel (one longer, one shorter), and both in the same direction
+            for dd in ([0, 1, -1], [0, -1, 1], [1, -1, 0], [-1, 0, 1], [0, 1, 1], [1, 1, -2] if n >= 2 else [1, 0, -1]):
+                yield ["mismatch2", k, n, dd]
 
 
 def tl(x):
@@ -310,6 +314,16 @@ def check(case, acc):
             acc.feature("astype_reordered_fields")
             _cmp(acc, "astype-narrower-reordered", {"c": f[2].tolist(), "a": f[0].tolist()},
                  lambda: (lambda o: {"c": np.asarray(o.c).tolist(), "a": np.asarray(o.a).tolist()})(mk().astype(C["ca"])))
+    elif kind == "mismatch2":
+        dd = case[3]
+        g = [fields(k, n + dd[j])[j] for j in range(k)]
+        acc.feature("mismatch_refused")
+        acc.feature("mismatch_cancelling")
+        acc.nontrivial()
+        o = attempt(lambda: tup(K(*g)))
+        acc.trans()
+        if not is_refused(o):
+            acc.fail("fields-of-different-length-accepted", ("refused", [n + x for x in dd]), o)
     elif kind == "mismatch":
         d, which = case[3], case[4]
         g = [x.copy() for x in f]
